@@ -126,45 +126,8 @@ impl SortingAttr {
             let ordering = match attr {
                 SortingAttr::Kind => Ordering::Equal,
 
-                SortingAttr::Name => 'ordering: {
-                    // Compare as integers.
-                    match (a.parse::<u128>(), b.parse::<u128>()) {
-                        (Ok(a_u128), Ok(b_u128)) => {
-                            break 'ordering a_u128.cmp(&b_u128)
-                        }
-
-                        (Ok(_), Err(_)) => {
-                            if b.parse::<i128>().is_ok() {
-                                // a > b, because b is negative.
-                                break 'ordering Ordering::Greater;
-                            }
-                        }
-
-                        (Err(_), Ok(_)) => {
-                            if a.parse::<i128>().is_ok() {
-                                // a < b, because a is negative.
-                                break 'ordering Ordering::Less;
-                            }
-                        }
-
-                        (Err(_), Err(_)) => {
-                            if let (Ok(a_i128), Ok(b_i128)) =
-                                (a.parse::<i128>(), b.parse::<i128>())
-                            {
-                                break 'ordering a_i128.cmp(&b_i128);
-                            }
-                        }
-                    }
-
-                    // Compare as floats.
-                    if let (Ok(a), Ok(b)) = (a.parse::<f64>(), b.parse::<f64>())
-                    {
-                        if let Some(ordering) = a.partial_cmp(&b) {
-                            break 'ordering ordering;
-                        }
-                    }
-
-                    natural_cmp(a, b)
+                SortingAttr::Name => {
+                    ArgNameKey::new(a).cmp(&ArgNameKey::new(b))
                 }
 
                 SortingAttr::Location => {
@@ -180,5 +143,63 @@ impl SortingAttr {
         }
 
         Ordering::Equal
+    }
+}
+
+/// Sort key of a benchmark runtime argument name.
+///
+/// Numbers are ordered by value and come before non-numeric names, which use
+/// natural order. This is a total order, as `sort_by` requires, also for
+/// lists that mix integers, floats and other text.
+enum ArgNameKey<'a> {
+    /// `int` is the exact value if the name is an integer: `Err` for a
+    /// negative one, `Ok` otherwise.
+    Number { value: f64, int: Option<Result<u128, i128>> },
+    Text(&'a str),
+}
+
+impl<'a> ArgNameKey<'a> {
+    fn new(name: &'a str) -> Self {
+        if let Ok(int) = name.parse::<u128>() {
+            Self::Number { value: int as f64, int: Some(Ok(int)) }
+        } else if let Ok(int) = name.parse::<i128>() {
+            Self::Number { value: int as f64, int: Some(Err(int)) }
+        } else {
+            match name.parse::<f64>() {
+                Ok(value) if !value.is_nan() => {
+                    Self::Number { value, int: None }
+                }
+                _ => Self::Text(name),
+            }
+        }
+    }
+
+    fn cmp(&self, other: &Self) -> Ordering {
+        match (self, other) {
+            (
+                Self::Number { value: a, int: a_int },
+                Self::Number { value: b, int: b_int },
+            ) => {
+                // Neither value is NaN.
+                let by_value = a.partial_cmp(b).unwrap_or(Ordering::Equal);
+
+                // Integers that are equal as floats compare exactly, and
+                // precede floats of that value.
+                by_value.then_with(|| match (a_int, b_int) {
+                    (Some(a), Some(b)) => match (a, b) {
+                        (Ok(a), Ok(b)) => a.cmp(b),
+                        (Err(a), Err(b)) => a.cmp(b),
+                        (Err(_), Ok(_)) => Ordering::Less,
+                        (Ok(_), Err(_)) => Ordering::Greater,
+                    },
+                    (Some(_), None) => Ordering::Less,
+                    (None, Some(_)) => Ordering::Greater,
+                    (None, None) => Ordering::Equal,
+                })
+            }
+            (Self::Number { .. }, Self::Text(_)) => Ordering::Less,
+            (Self::Text(_), Self::Number { .. }) => Ordering::Greater,
+            (Self::Text(a), Self::Text(b)) => natural_cmp(a, b),
+        }
     }
 }
